@@ -80,6 +80,25 @@ class DomHooks(SelfHooks):
                 return NodeClass          # a class object that is not `str` (plasTeX text nodes are Text, a str subclass)
             if isinstance(args[0], str):
                 return str
+        if isinstance(node.func, ast.Attribute) and node.func.attr == 'cloneNode' and isinstance(node.func.value, (ast.Name, ast.Attribute, ast.Subscript)):
+            recv = interp.ev(node.func.value, state)
+            if isinstance(recv, A.TextObj):
+                # CharacterData.cloneNode: a new text node with the same characters, parent and document (the class is a str subclass
+                # of the library, its two-line clone is summarised here)
+                k = state.env.get('__new', 0)
+                state.env['__new'] = k + 1
+                return A.TextObj(str(recv), label='clone-of-%s' % label_of(recv), nodeType=TEXT, TEXT_NODE=TEXT, ELEMENT_NODE=ELEMENT, DOCUMENT_FRAGMENT_NODE=FRAGMENT,
+                                 nodeName='#text', parentNode=recv.attrs.get('parentNode'), ownerDocument=recv.attrs.get('ownerDocument'),
+                                 __eqkey=recv.attrs.get('__eqkey'), attributes=None, isElementContentWhitespace=not str(recv).strip())
+        if isinstance(node.func, ast.Call) and M.call_name(node.func) == 'type' and len(args) == 1 and not kwargs and node.func.args:
+            # type(text)(string)  -> a new text node of the same kind holding that string
+            src = interp.ev(node.func.args[0], state)
+            if isinstance(src, A.TextObj) and isinstance(args[0], str):
+                k = state.env.get('__new', 0)
+                state.env['__new'] = k + 1
+                return A.TextObj(str(args[0]), label='new-text%d' % k, nodeType=TEXT, TEXT_NODE=TEXT, ELEMENT_NODE=ELEMENT, DOCUMENT_FRAGMENT_NODE=FRAGMENT,
+                                 nodeName='#text', parentNode=None, ownerDocument=None, __eqkey=('text', str(args[0])), attributes=None,
+                                 isElementContentWhitespace=not str(args[0]).strip())
         if isinstance(node.func, ast.Call) and M.call_name(node.func) == 'type' and not args:
             # type(self)()  -> an empty node of the same kind
             src = interp.ev(node.func.args[0], state) if node.func.args else None
